@@ -54,7 +54,7 @@ package queues
 //@   ensures [empty] old(q.readCount) == q.writeCount ==> !result1 && result0 == $box(T, zero(T)) && q.readCount == old(q.readCount)
 //@   ensures [frame] q.writeCount == old(q.writeCount) && q.$lg == old(q.$lg) && q.closed == old(q.closed)
 //@   ghost after store readChunk: q.$inQ[old(q.readChunk)] := false
-//@   assert [instant@C17] after call sync/atomic.Uint64.Add: q.readCount <= q.writeCount
+//@   assert [instant] after call sync/atomic.Uint64.Add: q.readCount <= q.writeCount
 
 // Values: a snapshot of exactly the pending items, oldest first (what Purge of the bound queue closes, job by job).
 //@ func Queue.Values
@@ -82,8 +82,8 @@ package queues
 //@   ensures [frame] q.closed == old(q.closed) && q.maxCapacity == old(q.maxCapacity)
 // C17, every instant: the lock-free reader Len() must never observe readCount > writeCount (it would report a wrapped, negative length)
 //@   requires [counters] q.readCount <= q.writeCount
-//@   assert [instant-r@C17] after store readCount: q.readCount <= q.writeCount
-//@   assert [instant-w@C17] after store writeCount: q.readCount <= q.writeCount
+//@   assert [instant-r] after store readCount: q.readCount <= q.writeCount
+//@   assert [instant-w] after store writeCount: q.readCount <= q.writeCount
 //@   ghost at return: q.$inQ := $store($emptyset(), q.readChunk, true)
 //@   ghost at return: q.$base[q.readChunk] := 0
 
